@@ -16,6 +16,7 @@ from ..enumerate import Out, hex_states, per_state, replay_per_state
 from ..hexsys import restore, apply_op
 from ..ref import mpt
 from ..report import Report
+from .common import add_scale
 
 MISSING = object()
 UNKNOWN_ROOT = mpt.keccak(b"no trie has this root")
@@ -330,8 +331,12 @@ def run(tier, seed):
     for name, kw in plans:
         sysm, states = hex_states(rep, name, **kw)
         per_state(rep, name + " proofs", sysm, states, fn)
+    add_scale(rep, "C03")
     return rep
 
 
 def replay(doc):
+    if doc["system"].get("system") == "scale":
+        from .common import replay_hex
+        return replay_hex(doc)
     return replay_per_state(doc, make_fn(doc.get("tier", "quick")))
